@@ -410,18 +410,25 @@ fn good_bj(rng: &mut Rng) -> (BodyVals, Vec<(String, String)>) {
     (v, m)
 }
 
-fn compact(members: &[(String, String)]) -> Vec<u8> {
+fn compact_sep(members: &[(String, String)], double_comma_at: Option<usize>) -> Vec<u8> {
     let mut s = String::from("{");
     for (i, (k, v)) in members.iter().enumerate() {
         if i > 0 {
             s.push(',');
+            if double_comma_at == Some(i) {
+                s.push(',');
+            }
         }
+        s.push('"');
         s.push_str(k);
-        s.push(':');
+        s.push_str("\":");
         s.push_str(v);
     }
     s.push('}');
     s.into_bytes()
+}
+fn compact(members: &[(String, String)]) -> Vec<u8> {
+    compact_sep(members, None)
 }
 
 /// every proper prefix of one valid document
@@ -444,15 +451,15 @@ pub fn json_bad_member(rng: &mut Rng) -> Case {
     let (_, mut m) = good_bj(rng);
     let mut tags = vec![];
     let wrong: &[(&str, &[&str])] = &[
-        ("\"s\"", &["5", "true", "null", "[\"a\"]", "{}"]),
-        ("\"n\"", &["\"5\"", "1.5", "9223372036854775808", "-9223372036854775809", "true", "null", "[1]", "1e400"]),
-        ("\"big\"", &["-1", "18446744073709551616", "\"1\"", "0.5", "null"]),
-        ("\"b\"", &["\"true\"", "1", "null", "True"]),
-        ("\"c\"", &["\"ab\"", "\"\"", "7", "null"]),
-        ("\"e\"", &["\"red\"", "\"DarkBlue\"", "0", "null", "[\"Red\"]"]),
-        ("\"l\"", &["[1,-1]", "[4294967296]", "[1,\"2\"]", "5", "[1,,2]", "[1,]"]),
-        ("\"o\"", &["5", "[]"]),
-        ("\"d\"", &["256", "-1", "\"0\"", "null"]),
+        ("s", &["5", "true", "null", "[\"a\"]", "{}"]),
+        ("n", &["\"5\"", "1.5", "9223372036854775808", "-9223372036854775809", "true", "null", "[1]", "1e400"]),
+        ("big", &["-1", "18446744073709551616", "\"1\"", "0.5", "null"]),
+        ("b", &["\"true\"", "1", "null", "True"]),
+        ("c", &["\"ab\"", "\"\"", "7", "null"]),
+        ("e", &["\"red\"", "\"DarkBlue\"", "0", "null", "[\"Red\"]"]),
+        ("l", &["[1,-1]", "[4294967296]", "[1,\"2\"]", "5", "[1,,2]", "[1,]"]),
+        ("o", &["5", "[]"]),
+        ("d", &["256", "-1", "\"0\"", "null"]),
     ];
     let kind = rng.below(7);
     match kind {
@@ -461,20 +468,20 @@ pub fn json_bad_member(rng: &mut Rng) -> Case {
             m.retain(|(n, _)| n != k);
             m.push((k.to_string(), rng.pick(vals).to_string()));
             tags.push("bad:json-wrong-typed-member".into());
-            tags.push(format!("pos:json-{}", k.trim_matches('"')));
+            tags.push(format!("pos:json-{}", k));
         }
         3 => {
-            let k = *rng.pick(&["\"s\"", "\"n\"", "\"big\"", "\"b\"", "\"c\"", "\"e\"", "\"l\""]);
+            let k = *rng.pick(&["s", "n", "big", "b", "c", "e", "l"]);
             m.retain(|(n, _)| n != k);
             tags.push("bad:omitted".into());
-            tags.push(format!("pos:json-{}", k.trim_matches('"')));
+            tags.push(format!("pos:json-{}", k));
         }
         4 => {
-            let k = *rng.pick(&["\"n\"", "\"big\"", "\"b\"", "\"l\""]);
+            let k = *rng.pick(&["n", "big", "b", "l"]);
             let dup = m.iter().find(|(n, _)| n == k).unwrap().clone();
             m.push(dup);
             tags.push("bad:duplicated".into());
-            tags.push(format!("pos:json-{}", k.trim_matches('"')));
+            tags.push(format!("pos:json-{}", k));
         }
         _ => {}
     }
@@ -484,8 +491,7 @@ pub fn json_bad_member(rng: &mut Rng) -> Case {
             // extra comma / trailing garbage
             match rng.below(4) {
                 0 => {
-                    let p = body.iter().position(|b| *b == b',').unwrap_or(1);
-                    body.insert(p, b',');
+                    body = compact_sep(&m, Some(1 + rng.below(m.len() - 1)));
                     tags.push("bad:json-extra-comma".into());
                 }
                 1 => {
